@@ -69,6 +69,7 @@ impl Rng {
     }
 
     /// Inclusive range.
+    #[allow(dead_code)]
     #[inline]
     pub fn range(&mut self, lo: u64, hi: u64) -> u64 {
         lo + self.below(hi - lo + 1)
